@@ -176,6 +176,30 @@ def run_one(case):
             if not ok:
                 vs.append(V("the same node object can be started again", f"restart-failed/{tag}/{role}",
                             f"state {w.state()}, start() result {err!r}"))
+            else:
+                # the new connection works in both directions (nothing of the old one gets in its way)
+                from . import c05
+                probe = c05.build_msgs({"subs": [{"msgs": [{"kind": "req", "size": 9}]}]})[0][0]
+                nsock = w.sock
+                got2 = []
+
+                def consume2():
+                    while True:
+                        m = w.d.get_message()
+                        if m is None:
+                            return
+                        got2.append(m.header.get_hop_by_hop())
+                w.call("consumer-after-restart", consume2)
+                w.call("submitter-after-restart", lambda: w.d.send_message(probe))
+                w.feed(app_request(0x7E577E57, 0x0BADCAFE, dest_realm=LOCAL["realm"]))
+                w.run(lambda: probe.dump() in bytes(nsock.outbox) and 0x7E577E57 in got2, 6.0)
+                if w.state() in ("I-Open", "R-Open"):
+                    if probe.dump() not in bytes(nsock.outbox):
+                        vs.append(V("the restarted node sends", f"restart-send-stuck/{tag}/{role}", f"state {w.state()}"))
+                    if 0x7E577E57 not in got2:
+                        vs.append(V("the restarted node delivers", f"restart-delivery-stuck/{tag}/{role}", f"delivered {got2}; state {w.state()}"))
+                else:
+                    vs.append(V("the restarted connection stays open for ordinary traffic", f"restart-dropped/{tag}/{role}", f"state {w.state()}"))
         world = w
     if world.unreaped:
         raise RuntimeError(f"harness could not reap threads: {world.unreaped}")
